@@ -352,6 +352,10 @@ def edge_features(spec, child, base_edge):
     return out
 
 
+def _has_generic_ancestor(spec, name):
+    return any(class_params(spec, b["cls"]) or _has_generic_ancestor(spec, b["cls"]) for b in get_class(spec, name)["bases"])
+
+
 def field_paths(spec, name, field):
     """all chains of base edges from `name` down to a class that declares `field`: list of lists of (child, edge)"""
     c = get_class(spec, name)
@@ -370,16 +374,19 @@ def field_shape(spec, leaf, field, args_feature=()):
     if len(paths) > 1:
         feats.add("diamond")
     for path in paths:
-        generic_seen_below = False
         for child, edge in path:
             feats |= edge_features(spec, child, edge)
+            # a class that joins two or more non-generic bases which themselves close generic ancestors
+            closed = [b for b in get_class(spec, child)["bases"]
+                      if not class_params(spec, b["cls"]) and _has_generic_ancestor(spec, b["cls"])]
+            if len(closed) > 1:
+                feats.add("nongeneric_join")
         # a non-generic class between two generic ones
         chain = [leaf] + [e["cls"] for _, e in path]
         arities = [len(class_params(spec, n)) for n in chain]
         for i in range(1, len(arities) - 1):
             if arities[i] == 0 and arities[i - 1] > 0 and any(a > 0 for a in arities[i + 1:]):
                 feats.add("nongeneric_mid")
-        del generic_seen_below
     if len(declarations(spec, field)) > 1:
         # declared in more than one class: is one of them above another on a path from the leaf?
         for c in spec["classes"]:
